@@ -34,8 +34,7 @@ const (
 	sigMinMax = "C09/aggregate/min-max-reset-by-null-related-value"
 )
 
-// _min/_max over a list relation: a related document whose value is null resets the running result
-// (declared below as sigMinMax)
+// knownSigs are the signatures the diagnosers can produce.
 var knownSigs = []string{sigMinMax, sigStop, sigOwnDrop, sigLookup, sigOrderDrop, sigNegDrop, sigSecondary, sigInPanic}
 
 type defects struct {
